@@ -124,7 +124,15 @@ func (s *ComplexityServiceImpl) analyzeFile(ctx context.Context, filePath string
 	// Calculate complexity for each function
 	complexityConfig := s.buildComplexityConfig(req)
 
-	for functionName, cfg := range cfgs {
+	// Iterate functions in a stable order (map iteration order is random)
+	functionNames := make([]string, 0, len(cfgs))
+	for functionName := range cfgs {
+		functionNames = append(functionNames, functionName)
+	}
+	sort.Strings(functionNames)
+
+	for _, functionName := range functionNames {
+		cfg := cfgs[functionName]
 		result := analyzer.CalculateComplexityWithConfig(cfg, complexityConfig)
 		if result == nil {
 			warnings = append(warnings, fmt.Sprintf("[%s:%s] Failed to calculate complexity for function", filePath, functionName))
@@ -198,14 +206,32 @@ func (s *ComplexityServiceImpl) sortFunctions(functions []domain.FunctionComplex
 func (s *ComplexityServiceImpl) sortByComplexity(functions []domain.FunctionComplexity) {
 	// Sort by complexity (descending) - O(n log n) instead of O(n²)
 	sort.Slice(functions, func(i, j int) bool {
-		return functions[i].Metrics.Complexity > functions[j].Metrics.Complexity
+		if functions[i].Metrics.Complexity != functions[j].Metrics.Complexity {
+			return functions[i].Metrics.Complexity > functions[j].Metrics.Complexity
+		}
+		return lessFunctionLocation(functions[i], functions[j])
 	})
+}
+
+// lessFunctionLocation is a deterministic tie-breaker for functions whose
+// primary sort keys are equal: file path, then start line, then name.
+func lessFunctionLocation(a, b domain.FunctionComplexity) bool {
+	if a.FilePath != b.FilePath {
+		return a.FilePath < b.FilePath
+	}
+	if a.StartLine != b.StartLine {
+		return a.StartLine < b.StartLine
+	}
+	return a.Name < b.Name
 }
 
 func (s *ComplexityServiceImpl) sortByName(functions []domain.FunctionComplexity) {
 	// Sort by name (ascending) - O(n log n) instead of O(n²)
 	sort.Slice(functions, func(i, j int) bool {
-		return functions[i].Name < functions[j].Name
+		if functions[i].Name != functions[j].Name {
+			return functions[i].Name < functions[j].Name
+		}
+		return lessFunctionLocation(functions[i], functions[j])
 	})
 }
 
@@ -223,7 +249,10 @@ func (s *ComplexityServiceImpl) sortByRisk(functions []domain.FunctionComplexity
 			return riskOrder[functions[i].RiskLevel] > riskOrder[functions[j].RiskLevel]
 		}
 		// Secondary sort by complexity within same risk level
-		return functions[i].Metrics.Complexity > functions[j].Metrics.Complexity
+		if functions[i].Metrics.Complexity != functions[j].Metrics.Complexity {
+			return functions[i].Metrics.Complexity > functions[j].Metrics.Complexity
+		}
+		return lessFunctionLocation(functions[i], functions[j])
 	})
 }
 
